@@ -24,3 +24,6 @@ Definition sevenz_arch_case (c : Z * list (nat * Z * bool * bool) * list nat * l
   let '(limit, ms, wr, pr) := c in
   let es := sevenz_events limit (map mk ms) in
   nat_list_eqb (ids_of wr_id es) wr && nat_list_eqb (ids_of pr_id es) pr.
+
+(* ODF text:s: (int(raw) or None, number of spaces the implementation produced) *)
+Definition space_case (c : option Z * Z) : bool := let '(p, got) := c in space_count p =? got.
